@@ -17,8 +17,9 @@
 //   dump  CLASS vec|tt OUTFILE SEED     generate, [tt: hash traffic], probe every placement
 //   scope CLASS vec|tt SEED N           probe N positions OUTSIDE the class / with castling rights
 //   script SEED                          op sequence on one TranspositionTable, ops on stdin:
-//        U CLASS DELAY_US    updateTB(root of CLASS); DELAY_US >= 0: a second thread requests
-//                            "stop" (maxTimeMillis := 0) that long after the call started
+//        U CLASS DELAY       updateTB(root of CLASS); DELAY >= 0 (microseconds) or pN (N permille of
+//                            the duration of the last complete generation in this process): a second
+//                            thread requests "stop" (maxTimeMillis := 0) that long after the call started
 //        X                   updateTB with a 5-man root (not suitable for a table)
 //        C                   clear()
 //        H N                 N hash inserts + probes (ordinary hash traffic)
@@ -334,12 +335,18 @@ static int modeScript(int argc, char** argv) {
     hashTraffic(tt, rng, 1000000);
     Placer pl;
     int d[8];
+    double lastFullMs = 1000.0;
     std::string line;
     while (std::getline(std::cin, line)) {
         std::istringstream is(line);
         std::string op; is >> op;
         if (op == "U") {
-            std::string cn; i64 delayUs; is >> cn >> delayUs;
+            std::string cn, ds; is >> cn >> ds;
+            i64 delayUs;
+            if (!ds.empty() && ds[0] == 'p')        // permille of the last complete generation's time
+                delayUs = (i64)(std::atof(ds.c_str() + 1) * lastFullMs);   // ms * permille = us
+            else
+                delayUs = std::atoll(ds.c_str());
             Cls c = parseClass(cn);
             rootDigits(c, d);
             pl.place(c, d, true);
@@ -362,8 +369,9 @@ static int modeScript(int argc, char** argv) {
             double t1 = nowMs();
             done.store(true);
             if (stopper.joinable()) stopper.join();
-            std::printf("U pre=%d ret=%d installed=%d ms=%.1f\n", pre ? 1 : 0, ret ? 1 : 0,
-                        tt.tbGen ? 1 : 0, t1 - t0);
+            if (ret && !pre) lastFullMs = t1 - t0;
+            std::printf("U pre=%d ret=%d installed=%d ms=%.1f stop_us=%lld\n", pre ? 1 : 0, ret ? 1 : 0,
+                        tt.tbGen ? 1 : 0, t1 - t0, delayUs);
         } else if (op == "X") {
             Position pos;
             pos.setPiece(Square(0), Piece::WKING); pos.setPiece(Square(63), Piece::BKING);
